@@ -590,6 +590,28 @@ fn pnsign3(a: &mut Args) -> String {
     }).collect::<Vec<_>>().join(" ")
 }
 
+/// `tnc3`: <mesh> <nops> <op>*  ->  `V nv coords I ni idx F flags N { - | panic | face e0 e1 e2 }*ni` | `nobuild`:
+/// `TriMesh::triangle_normal_constraints(i)` (the FIX_INTERNAL_EDGES data handed to the contact-manifold code) for every
+/// triangle of the final mesh of the history, with the buffers and flags the answer has to be judged against
+fn tnc3(a: &mut Args) -> String {
+    let m0 = read_mesh(a, 3);
+    let ops = read_ops(a, 3);
+    let mesh = match h3::run_ops(&m0, &ops) { Some(m) => m, None => return "nobuild".into() };
+    let mut s = format!("V {}", mesh.vertices().len());
+    for p in mesh.vertices() { s.push(' '); s.push_str(&ffs(p.coords.iter())); }
+    s.push_str(&format!(" I {}", mesh.indices().len()));
+    for t in mesh.indices() { s.push_str(&format!(" {} {} {}", t[0], t[1], t[2])); }
+    s.push_str(&format!(" F {} N", mesh.flags().bits()));
+    for i in 0..mesh.indices().len() as u32 {
+        match catch_unwind(AssertUnwindSafe(|| mesh.triangle_normal_constraints(i))) {
+            Err(_) => s.push_str(" panic"),
+            Ok(None) => s.push_str(" -"),
+            Ok(Some(c)) => { s.push(' '); s.push_str(&ffs(c.face.iter())); for e in c.edges.iter() { s.push(' '); s.push_str(&ffs(e.iter())); } }
+        }
+    }
+    s
+}
+
 pub fn exec(func: &str, a: &mut Args) -> String {
     match func {
         "hist3" | "hist3w" | "hist3s" => h3::hist(a),
@@ -598,6 +620,7 @@ pub fn exec(func: &str, a: &mut Args) -> String {
         "histq2" => h2::histq(a),
         "contains3" => contains3(a),
         "pnsign3" => pnsign3(a),
+        "tnc3" => tnc3(a),
         "bvhq3" => h3::bvhq(a),
         "bvhq2" => h2::bvhq(a),
         "boxscale3" => h3::boxscale(a),
@@ -806,15 +829,20 @@ fn gen_contains(r: &mut Rng) -> String {
             _ => ops.push(RawOp::Sf(ORIENTED | (m.f & MERGE))),
         }
     }
-    // sometimes an orientation-preserving `scaled` (all components positive, or exactly two negative: a half-turn composed
-    // with a positive scale), uniform or not: the scaled mesh is still closed and outward oriented
-    if r.below(3) == 0 {
-        let lat = r.bool();
-        let mut sc: Vec<f64> = (0..3).map(|_| if lat { *r.pick(&[0.5, 1.0, 2.0, 3.0]) } else { r.uniform(0.3, 3.0) }).collect();
-        if r.below(4) == 0 { let k = sc[0]; sc = vec![k; 3]; }
-        if r.bool() { let keep = r.below(3) as usize; for k in 0..3 { if k != keep { sc[k] = -sc[k]; } } }
-        let pos = r.below(ops.len() as u64 + 1) as usize;
-        ops.insert(pos, RawOp::Sc(sc));
+    // one time in two a `scaled`, uniform or not, with ANY of the 8 sign patterns: every mesh here is ORIENTED, so `scaled`
+    // flips the winding back under a mirroring scale (odd number of negative factors) and the scaled mesh must again be a
+    // closed outward-oriented mesh whose inside test agrees with the crossing parity; sometimes two scales in a row
+    // (mirror twice = orientation preserved through two reversals)
+    if r.bool() {
+        for _ in 0..(if r.below(4) == 0 { 2 } else { 1 }) {
+            let lat = r.bool();
+            let mut sc: Vec<f64> = (0..3).map(|_| if lat { *r.pick(&[0.5, 1.0, 2.0, 3.0]) } else { r.uniform(0.3, 3.0) }).collect();
+            if r.below(4) == 0 { let k = sc[0]; sc = vec![k; 3]; }
+            let signs = r.below(8);
+            for k in 0..3 { if (signs >> k) & 1 == 1 { sc[k] = -sc[k]; } }
+            let pos = r.below(ops.len() as u64 + 1) as usize;
+            ops.insert(pos, RawOp::Sc(sc));
+        }
     }
     // the final buffers (real code) only serve to place the query points away from the surface
     let fm = h3::run_ops(&m, &ops).expect("closed mesh history");
@@ -1061,6 +1089,32 @@ fn gen_bvhq(r: &mut Rng, d: usize) -> Option<String> {
     Some(s)
 }
 
+/// `tnc3` histories: meshes that carry FIX_INTERNAL_EDGES at some point of the history (set at build time, added or removed
+/// by `set_flags`, kept through `reverse` / `transform_vertices` / `scaled` of any sign / `append`): closed meshes and spikes
+/// (dihedral edges), soups merged by the flag, random lattice meshes with duplicate / degenerate / coplanar-opposite
+/// triangles (edge sums that cancel: the `1e-6` branch), open strips (boundary edges: a single incident face).
+fn gen_tnc(r: &mut Rng, thorough_len: u64) -> (RawMesh, Vec<RawOp>) {
+    let fix = FIX7 | MERGE;
+    let (mut m, mut ops) = match r.below(4) {
+        0 => { let m = if r.bool() { closed_mesh(r) } else { spike_mesh(r) }; (m, vec![]) }
+        1 => { let m = probe_mesh(r, 3); (m, vec![]) }
+        2 => gen_scaled_hist(r, 3),
+        _ => { let m = gen_mesh(r, 3, false); let ops = gen_ops(r, 3, thorough_len); (m, ops) }
+    };
+    // a back-to-back copy of a triangle (opposite winding on the same vertices): the two normals cancel on its three edges
+    if r.below(6) == 0 && !m.i.is_empty() { let t = m.i[r.below(m.i.len() as u64) as usize]; m.i.push([t[1], t[0], t[2]]); }
+    match r.below(4) {
+        0 => { m.f |= fix; }                                                     // from the start
+        1 => { m.f &= !FIX7; let f = m.f; let pos = r.below(ops.len() as u64 + 1) as usize; ops.insert(pos, RawOp::Sf(f | fix)); }   // added later
+        2 => { m.f |= fix; let pos = r.below(ops.len() as u64 + 1) as usize;    // removed, then possibly added again
+               ops.insert(pos, RawOp::Sf(*r.pick(&[0, MERGE, FIX7, ORIENTED, HET | CC])));
+               if r.bool() { ops.push(RawOp::Sf(fix | *r.pick(&[0, ORIENTED, HET, DEL_DEGEN, DEL_DUP]))); } }
+        _ => { m.f |= fix; for op in ops.iter_mut() { if let RawOp::Sf(f) = op { if r.below(3) != 0 { *f |= fix; } } } }
+    }
+    if r.below(3) == 0 { ops.push(match r.below(4) { 0 => RawOp::Rev, 1 => RawOp::Sc(gen_scale(r, 3)), 2 => gen_tv(r, 3), _ => RawOp::App(probe_mesh(r, 3)) }); }
+    (m, ops)
+}
+
 pub fn gen(r: &mut Rng, thorough: bool) -> Vec<(String, String)> {
     let mut out = vec![];
     let n3 = if thorough { 40000 } else { 5000 };
@@ -1106,6 +1160,11 @@ pub fn gen(r: &mut Rng, thorough: bool) -> Vec<(String, String)> {
     for _ in 0..(if thorough { 3000 } else { 300 }) {
         if let Some(c) = gen_bvhq(r, 3) { out.push(("bvhq3".to_string(), c)); }
         if let Some(c) = gen_bvhq(r, 2) { out.push(("bvhq2".to_string(), c)); }
+    }
+    // `triangle_normal_constraints` of every triangle after a history that meets FIX_INTERNAL_EDGES
+    for _ in 0..(if thorough { 6000 } else { 600 }) {
+        let (m, ops) = gen_tnc(r, maxlen);
+        out.push(("tnc3".to_string(), show_case(&m, &ops)));
     }
     // pseudo-normal sign test at vertices / edges of closed meshes (spikes: faces seen from different sides)
     for _ in 0..(if thorough { 4000 } else { 400 }) {
